@@ -4,6 +4,8 @@ run (`Generated/C20.lean`).  The theorems of `Props/C20.lean` are stated for the
 -/
 import TbbVerif.Model.C20Sleep
 import TbbVerif.Model.C20Disp
+import TbbVerif.Model.C20Pool
+import TbbVerif.Model.C20Wait
 import TbbVerif.Generated.C20
 
 namespace TbbVerif.C20
@@ -17,5 +19,14 @@ def genSleepCfg : Sleep.Cfg :=
 def genDispCfg : Disp.Cfg :=
   { coInit := coInit, omitLocal := omitLocal, stealOk := stealOk, mailSkip := mailSkip, fifoOk := fifoOk,
     critAny := fun l => !critSpecific l }
+
+/-- the skeleton of the switch / post-resume-action / co-cache code as extracted from the source on this run -/
+def genPoolSkel : Pool.Skel :=
+  { popClears := poolPopClears, finalizeFirst := poolFinalizeFirst, recallChecked := poolRecallChecked,
+    actionBeforeSwitch := poolActionBeforeSwitch, clearsAction := poolClearsAction, cleanupCaches := poolCleanupCaches,
+    recallPointGuard := poolRecallPointGuard, xchgThenPush := poolXchgThenPush, selfRecallChecked := poolSelfRecallChecked }
+
+/-- the facts the `Wait` model is configured with -/
+def genWaitCfg : Wait.Cfg := { releaseAfterBody := waitReleaseAfterBody, recallGuard := poolRecallPointGuard }
 
 end TbbVerif.C20
